@@ -43,7 +43,8 @@ Fixpoint cat_assoc_set (t : cat_table) (k v : cat) : cat_table :=              (
   | [] => [(k, v)]
   | (a, b) :: r => if cat_eqb a k then (a, v) :: r else (a, b) :: cat_assoc_set r k v
   end.
-Definition cat_assoc_keys (t : cat_table) : list cat := map fst t.              (* list(t.keys()) *)
+Fixpoint cat_assoc_keys (t : cat_table) : list cat :=                          (* list(t.keys()) *)
+  match t with [] => [] | (a, _) :: r => a :: cat_assoc_keys r end.
 
 (* ---- the value stored under a report key ----------------------------------------------------------- *)
 Inductive payload :=
